@@ -302,10 +302,10 @@ class Request(Message):
             done = data[:2] == b"\r\n"
 
             if idx < 0 and not done:
-                self.get_data(unreader, buf)
-                data = buf.getvalue()
                 if len(data) > self.max_buffer_headers:
                     raise LimitRequestHeaders("max buffer headers")
+                self.get_data(unreader, buf)
+                data = buf.getvalue()
             else:
                 break
 
